@@ -464,6 +464,11 @@ def lexical_layer(model: Model, report: Report, side: str, rule_prefix: str) -> 
                 report.undecided(rule_prefix + ".L6", "lex.lex_string_factory", f"{what}: {err}")
                 continue
             site = f"lex.{lx['state']}"
+            definite = [pp for pp in lx["problems"] if pp[0] in ("lex:escape-any", "lex:eof", "lex:escape-silent")]
+            if definite and side == "a-only":
+                for k, msg in definite:
+                    report.fail(rule_prefix + ".L6", site, f"{what}:{k}", f"{what}: {msg}")
+                continue
             if lx["problems"] or dm.problems:
                 # structure of the scanner/decoder itself is off: C09 reports the details
                 report.undecided(rule_prefix + ".L6", site, f"{what}: the string scanner/decoder does not have the expected structure ({(lx['problems'] or dm.problems)[0][1] if lx['problems'] else dm.problems[0][2]})")
